@@ -5,7 +5,8 @@
 set -u
 PATCH=$1; shift
 cd /tmp/mutrun/repo && git checkout -q -- . && git apply "$PATCH" || { echo "patch does not apply"; exit 3; }
-rsync -a --exclude harness/target --exclude harness/Cargo.toml --exclude .git --exclude .work --exclude evidence/replay /verif/ /tmp/mutrun/verif/
+rsync -a --exclude 'harness/target*' --exclude .git --exclude .work --exclude evidence/replay /verif/ /tmp/mutrun/verif/
+sed -i 's|path = "/repo"|path = "/tmp/mutrun/repo"|' /tmp/mutrun/verif/harness/Cargo.toml
 cd /tmp/mutrun/verif
 for p in "$@"; do
   ./check "$p" 2>&1 | grep -E "VIOLATION|KNOWN|tier=|CHECK-ERROR" | head -4
